@@ -140,7 +140,10 @@ void harness(void)
         CANARY(ret >= 0, "rejection reachable");
         return;
     }
-#ifdef ARGS
+#ifdef ENTRY_SNPRINTF
+    /* the (documented) truncating entry point: only C01/C03/C04 and the fitting case are checked */
+    ret = _snprintf_s_chk(dest, dmax, BOS_UNKNOWN, FMT, ARGS);
+#elif defined(ARGS)
     ret = _sprintf_s_chk(dest, dmax, BOS_UNKNOWN, FMT, ARGS);
 #else
     ret = _sprintf_s_chk(dest, dmax, BOS_UNKNOWN, FMT);
@@ -157,6 +160,9 @@ void harness(void)
         }
         CHECK(g_hcalls == 0, "C05: handler invoked although the output fits");
     } else {
+#ifdef ENTRY_SNPRINTF
+        if (ret >= 0) return;      /* documented truncation of snprintf_s (terminator checked above) */
+#endif
         CHECK(ret < 0, "C11/C06: output that does not fit in dmax is not reported as an error");
         if (ret < 0) {
             for (size_t i = 0; i < DMAXMAX; i++) if (i < dmax) CHECK(dest[i] == 0, "C04: dest not cleared after the output did not fit");
